@@ -262,6 +262,43 @@ CHECKS["C15"] = dict(
     note=TB + "; harness/hydrogen.py (generators, exact reference polygon, F26 predicate); pinv and arctan2 ordering are inputs of the model",
 )
 
+CHECKS["C09"] = dict(
+    category="translation_validation",
+    text=("Proved in Coq for all inputs (Props/C09.v): (1) the collider-type dispatch of gjk_nesterov_accelerated (Model/Nesterov.v: "
+          "specialised supports, found flag, inflation, the exits that assign `distance`, the max(.,0) wrapper) is consistent for EVERY pair of "
+          "the 11 collider classes: each collider equals the set handed to the loop inflated by its share of `inflation`, hence IF the loop "
+          "converges to the true distance of the sets it was given THEN the wrapper returns the true distance of the original pair; the logic "
+          "before commit 4366de3 (F3) is refuted with a witness; (2) soundness of the result certificates dist_cert (gjk_distance_original) and "
+          "dist_values_cert (certified enclosure of the true distance from untrusted witnesses). Tie to the code: executable Gallina models of the "
+          "whole Nesterov loop (three projections incl. the tetrahedron tree, acceleration branches, cap exit) and of "
+          "gjk_nesterov_accelerated_primitives replay the support traces recorded from the implementation (every pass must agree). The "
+          "Frank-Wolfe convergence and Johnson's sub-algorithm are not proved. Judged per generated input only: gjk_distance_original by dist_cert "
+          "at 1e-3 L; the Nesterov family with and without acceleration and the primitives analogues by dist_values_cert; iteration helpers == "
+          "main entry; all 100 ordered kind pairs at prescribed true distances and overlapping, every mixed specialised/generic pair, "
+          "needle/plate colliders."),
+    design_ref="DESIGN.md section 5, C09",
+    technique="Coq proof of the Nesterov type dispatch + Coq-proven result certificates evaluated by vm_compute on exact rationals + trace-replay correspondence of Gallina loop models",
+    note=TB + "; harness/narrow.py parts()/sh_expr/wit_expr (witnesses untrusted); specialised supports of sphere/capsule modelled as core point/segment",
+)
+CHECKS["C19"] = dict(
+    category="other",
+    text=("THEOREM (Props/C19.v, for all inputs; every data-dependent test of a loop body is an arbitrary oracle in Model/GjkCaps.v): the capped "
+          "loops terminate and make at most f(caps) support evaluations (libccd, EPA, MPR portal discovery, mpr_penetration, both Nesterov "
+          "loops); the caps (default arguments), the comparison operator of every cap test, the evaluations per pass and the absence of a cap in "
+          "_refine_portal are RE-READ from /repo on every run by a fail-closed ast reader (Gen/NarrowCaps.v) and f(declared caps) <= 1000 is "
+          "re-proved. NOT A THEOREM: termination of the `while True` loops of the Jolt GJK, the original GJK and mpr._refine_portal - "
+          "C19_uncapped_loops_unbounded proves that their control structure admits any number of evaluations; for the Jolt loop model over exact "
+          "reals it IS proved that the loop continues only on a strict decrease of |v|^2 and (partial) that it never runs out of fuel if the "
+          "solver's values lie in a finite list; floating-point liveness is MONITORED only. Monitored per generated pair and entry point (all GJK "
+          "flavours, boolean tests, Nesterov, MPR, EPA, self-collision on small BVHs): support evaluations <= 1000 and <= the proven bound of "
+          "the capped loops, per-call alarm (a timeout is re-run alone before it counts), every returned number finite except the documented "
+          "MAX_FLOAT clip, no exception except EPA's capacity assertion; streams: aspect ratios to 1e4, identical, nested, touching, zero-volume, "
+          "lattice placements, big meshes with a face-normal direction (F-M1). Known finding F2-C19."),
+    design_ref="DESIGN.md section 5, C19",
+    technique="Coq proof that every capped narrow-phase loop makes at most f(caps) support evaluations for arbitrary oracles, caps and loop shapes re-extracted from the source each run; liveness/finiteness/exception policy monitored on generated degenerate inputs",
+    note=TB + "; harness/narrow_caps.py (ast reader); the support-evaluation counter wraps collider.support_function",
+)
+
 NA_DEFAULT = "no check registered yet: machinery under construction in this session (DESIGN.md section 5 has the plan); not claimed"
 NA = {}
 
